@@ -555,6 +555,9 @@ var c08Keywords = []string{
 var c08Fixed = []string{
 	"", " ", "\t\n\r ", "\u00a0", "\u2003\u2028", "\u001c", "\u180e", "/* only a comment */", "// line comment", ";", "\x00",
 	"CALL foo.bar()", "CALL foo.bar", "CALL foo.bar() YIELD a", "CALL db.labels() YIELD label RETURN label",
+	"MATCH (n) SET n.a.b = 1", "MATCH (n) REMOVE n.a.b", "MATCH (n) SET n.a.b.c = 1, n.x.y = 2, n.z = 3", "MATCH (n) WITH n SET n.a.b = n.c.d RETURN n.e.f",
+	"RETURN 1 /* c */ + 2", "RETURN 1 + /* c */ 2", "RETURN - /* c */ 1", "RETURN 2 ^ /* c */ 3 * 4", "RETURN 1 \u001c+ 2", "RETURN NOT NOT true", "MATCH (n) WHERE NOT NOT NOT n.a RETURN n",
+	"MATCH (n)-[*2]->(m) RETURN m", "RETURN ns.fn(1)",
 	"LOAD CSV FROM 'x' AS l RETURN l", "LOAD CSV WITH HEADERS FROM 'x' AS l FIELDTERMINATOR ';' RETURN l",
 	"MATCH (n) CALL foo.bar() YIELD x RETURN n", "MATCH (n) USING INDEX n:Person(name) RETURN n", "CYPHER 2.3 MATCH (n) RETURN n",
 	"EXPLAIN MATCH (n) RETURN n", "PROFILE MATCH (n) RETURN n", "START n=node(1) RETURN n", "MATCH (n) RETURN n UNION MATCH (m) RETURN m",
